@@ -59,10 +59,10 @@ def model_with_thr(est):
   return ev
 
 
-def predict_pairs_event(est, S, idx, y, via_index, with_score=True, off=None):
+def predict_pairs_event(est, S, idx, y, via_index, with_score=True, off=None, S_arg=None):
   """S: the harness's own copy of the data the tuples designate; idx: index pairs into S; off: (index map) the same
   points named through the estimator's current preprocessor"""
-  arg = (idx if off is None else off[idx]) if via_index else S[idx]
+  arg = (idx if off is None else off[idx]) if via_index else (S if S_arg is None else S_arg)[idx]
   d = est.pair_distance(arg)
   ev = {'pts': [[dyv(S[i]), dyv(S[j])] for i, j in idx],'ev': 'PredictPairs', 'd': dyv(d), 'pred': [int(v) for v in est.predict(arg)],
         'dec': dyv(est.decision_function(arg)), 'thr': dy(est.threshold_), 'y': [int(v) for v in y],
@@ -75,17 +75,27 @@ def gen_pairs_trace(recipe, rng):
   tr = gen.training(rng, name, d=recipe['d'])
   X = tr['X']
   S, idx, y = pair_tests(rng, X)
+  int_tuples = bool(recipe.get('int_tuples'))
+  if int_tuples:
+    # the same kind of data on the INTEGER grid, handed to the estimator as int64 arrays (formed tuples, or an integer
+    # preprocessor array): the distances compared are still those of the designated points under the learned L
+    X = np.round(X * 4.0)
+    S = np.round(S * 4.0)
+    tr = dict(tr, X=X)
   via_index = recipe['via_index']
   opts = gen.options(rng, name, X.shape[1], 2)
+  S_arg = S.astype(np.int64) if int_tuples else S
   if via_index:
     store = np.vstack([S, X])
+    if int_tuples:
+      store = store.astype(np.int64)
     opts['preprocessor'] = store
     fit_pairs = tr['idx'] + len(S)
   else:
     fit_pairs = X[tr['idx']]
   est, _, opts = gen.fitted(rng, name, opts=opts, train=dict(tr, fit_args=(fit_pairs, tr['labels'])))
   events = [model_with_thr(est)]
-  arg = idx if via_index else S[idx]
+  arg = idx if via_index else S_arg[idx]
   dist = np.unique(est.pair_distance(arg))         # sorted distinct learned distances (incl. 0.0)
 
   def real_thr(t):
@@ -134,8 +144,8 @@ def gen_pairs_trace(recipe, rng):
       est.set_threshold(val)
       events.append({'ev': 'SetThreshold', 'arg': dy(float(val)), 'thr_after': dy(est.threshold_), 'exc': ''})
     elif kind == 'predict':
-      events.append(predict_pairs_event(est, S, idx, y, via_index, off=off))
-  events.append(predict_pairs_event(est, S, idx, y, via_index, off=off))
+      events.append(predict_pairs_event(est, S, idx, y, via_index, off=off, S_arg=S_arg))
+  events.append(predict_pairs_event(est, S, idx, y, via_index, off=off, S_arg=S_arg))
   return {'est': name, 'via_index': via_index, 'ops': recipe['ops'], 'events': events}
 
 
@@ -279,7 +289,7 @@ def run(ctx):
   rs = []
   for i, ops in enumerate(hs):
     rs.append(dict(est=gen.PAIRS[i % 3], d=int(rng.integers(2, 5)), seed=int(rng.integers(1 << 30)),
-                   via_index=bool(i % 2), ops=[list(o) for o in ops], src='tlc'))
+                   via_index=bool(i % 2), ops=[list(o) for o in ops], src='tlc', int_tuples=bool(i % 4 >= 2)))
   n_rand = 12 if ctx.quick else 120
   for i in range(n_rand):
     L = int(rng.integers(4, 12))
@@ -288,7 +298,7 @@ def run(ctx):
       k = ['set_threshold', 'predict', 'calibrate', 'fit'][int(rng.choice(4, p=[0.4, 0.35, 0.15, 0.1]))]
       ops.append([k, int(rng.integers(-1, 14))])
     rs.append(dict(est=gen.PAIRS[i % 3], d=int(rng.integers(2, 7)), seed=int(rng.integers(1 << 30)),
-                   via_index=bool(i % 2), ops=ops, src='random'))
+                   via_index=bool(i % 2), ops=ops, src='random', int_tuples=bool(i % 4 >= 2)))
   for i in range(8 if ctx.quick else 80):
     rs.append(dict(est=['SCML', 'LSML'][i % 2], d=int(rng.integers(2, 6)), seed=int(rng.integers(1 << 30)),
                    via_index=bool((i // 2) % 2), src='random'))
